@@ -353,17 +353,20 @@ def update_level(ctx):
     first = None
     for gamma_ in (0.0, float(rng.choice([1.0, 3.0, 10.0]))):  # gamma = 0: the boundary value the chosen root must also handle
         first = first or _update_level_gamma(ctx, rng, gamma_)
+    # terminals pinned (the default): the state handed in need not hold the terminal value on the terminal sites (a seed
+    # computed with another terminal value); the answer on the FREE sites still solves the equations of the state given
+    first = first or _update_level_gamma(ctx, rng, float(rng.choice([1.0, 10.0])), terminal_psi=0.0)
     return first
 
 
-def _update_level_gamma(ctx, rng, gamma_):
+def _update_level_gamma(ctx, rng, gamma_, terminal_psi=None):
     import zoo
     import runs
 
     first = None
     dev = zoo.make_device("bar_hole", rng, max_edge_length=1.0, gamma=gamma_)
     dt = 2e-3
-    opts = runs.options(adaptive=False, dt_init=dt, terminal_psi=None)
+    opts = runs.options(adaptive=False, dt_init=dt, terminal_psi=terminal_psi)
     ref = runs.Reference(dev, opts, 2, applied_vector_potential=0.4, terminal_currents={"source": 2.0, "drain": -2.0})  # two ordinary steps first
     solver = ref.solver
     n, E = len(dev.mesh.sites), solver.num_edges
@@ -389,8 +392,12 @@ def _update_level_gamma(ctx, rng, gamma_):
         dt_out, psi2 = float(res[0]), np.asarray(res[1])
         v = dict(psi=psi, abs_sq=np.abs(psi) ** 2, mu=mu, eps=np.asarray(solver.epsilon) * np.ones(n), gamma=solver.gamma, u=solver.u, dt=dt_out, M=solver.operators.psi_laplacian)
         z, w, b, disc, az2, aw2 = oracle_zw(v)
-        bad = check_answer(v, (psi2, np.abs(psi2) ** 2), np.arange(n), z, w, b, disc, az2, aw2)
-        ctx.case(("update-from-arbitrary-state", gamma_, rep, amp), nontrivial=True)
+        free_ = np.arange(n)
+        if terminal_psi is not None:
+            tsites_ = np.unique(np.concatenate([t_["sites"] for t_ in zoo.independent_terminals(dev).values()]))
+            free_ = np.setdiff1d(free_, tsites_)
+        bad = check_answer(v, (psi2[free_], (np.abs(psi2) ** 2)[free_]), free_, z, w, b, disc, az2, aw2)
+        ctx.case(("update-from-arbitrary-state", gamma_, rep, amp, repr(terminal_psi)), nontrivial=True)
         ctx.count("update_level_calls")
         if bad:
             i, what = bad[0]
